@@ -3,6 +3,7 @@ import Anysystem.Props.C13
 import Anysystem.Props.C03
 import Anysystem.Proofs.R4
 import Anysystem.Proofs.R5Main
+import Anysystem.Proofs.R6Demo
 /-!
 # C04 — The simulator's own execution is always among the model-checked ones
 
@@ -18,12 +19,13 @@ namespace Anysystem
 #check @C03_ok_exhaustive_disabled
 #check @C03_evaluated_reachable
 
-/- R4 (partial: fault rates zero, no crash during the run): one simulator step that handles an event is a step of the
+/- R4 (partial: duplication and corruption rates zero — drop rate arbitrary —, no crash during the run): one simulator step that handles an event is a step of the
    reference semantics enabled in the *reduced* sense (so the model checker, complete for reduced steps by C13/R2,
    offers it), and the relation `TimedRel` between simulator and reference state is re-established; the relation holds
    for a quiet simulator state (`timedRel_of_quiet`), implies equality of the process-visible projection
    (`TimedRel.visible`), and the timer the simulator pops is never blocked in the reference state -/
 #check @sim_step_refines_partial
+#check @sim_step_refines_run
 #check @timedRel_of_quiet
 #check @TimedRel.visible
 #check @popped_timer_unblocked
@@ -31,7 +33,8 @@ namespace Anysystem
 #check @R4Demo.demo_hyps
 #check @R4Demo.demo_step
 
-/- **C04 end to end** (partial: fault rates zero, no crash/recover after the snapshot, override-free program (D1), exact time
+/- **C04 end to end** (partial: duplication and corruption rates zero — drop rate arbitrary: a message the simulator drops at
+   random when it is sent stays in flight in the reference state as a zombie —, no crash/recover after the snapshot, override-free program (D1), exact time
    arithmetic (D16), goal/prune only at states without pending events): after k further simulator steps the process-visible
    state of the simulation is that of a state an `Ok` exploration from the snapshot evaluated.  Chain: `timedRel_snapshot`,
    `snapshot_sim'`, then per step R4 + R2 completeness, finally R3 + C11 congruence + `key_covers`.  `demo_covered`: every
@@ -41,5 +44,9 @@ namespace Anysystem
 #check @sim_step_matched
 #check @sim_run_covered_partial
 #check @R5MainDemo.demo_covered
+/- non-vacuity with a positive drop rate: a run in which a send is dropped at random -/
+#check @R6Demo.drop_hyps
+#check @R6Demo.drop_step
+#check @R6Demo.drop_covered
 
 end Anysystem
